@@ -219,3 +219,15 @@ MUTANTS = [
      'old': 'if(validate_current_chunk(zck) < 1) {',
      'new': 'int verdict = validate_current_chunk(zck);\n    if(verdict != 1) {', 'expect': None},
 ]
+
+
+CLAIM = {
+    'technique': 'verdict-discipline analysis (path-sensitive class engine over the callers of the chunk verdict), '
+                 'release typestate on every caller of the end_dchunk slot, backend slot cross-check',
+    'text': 'static analysis: decides the mechanism C15 rests on - the chunk verdict (-1 mismatch / 0 error) can '
+            'never reach a success exit of comp_end_dchunk/comp_read; every exit after the decode slot is verified, '
+            'purged or poisoned; a unit-decoding backend does not release from its streaming slot; the decode slot is '
+            'reached only when the whole stored chunk was read. zstd itself is not analysed.',
+    'note': 'trusted: clang 14 front end; return-convention table; function-pointer slot resolution from the setup '
+            'functions; purge = dc_data assigned NULL, poison = set_error_wf(fatal>=1)',
+}
